@@ -112,3 +112,7 @@ def run(ctx):
                     own.append(f.loc(t))
     R.ob('C14.selfwake', ('client and server poll functions', 'never wake their own task after a not-ready transport'), not own,
          'on the edge where poll_ready returned Pending no poll function wakes the waker of the context it was polled with: they wait for the transport\'s wake-up instead of being re-polled at once', own)
+    # the request stream does not remember a failed transport operation itself (it reports the error as an item): tarpc's own consumer stops at the first
+    # error item, so nothing is written to a transport after it reported a readiness, flush or close failure (rule shared with C09.server)
+    from .C09 import stops_at_first_error
+    stops_at_first_error(ctx, 'C14.stop')
